@@ -13,7 +13,7 @@ sql/range_mysql.go; every `def` names the Go function it follows, path by path, 
 * `ColRange.{equals,isEmpty,isConnected,overlaps,subtract,isSubsetOf,tryIntersect,tryUnion}`,
   `simplify`
 * `Range.{isEmpty,equals,compare,intersect,tryMerge,isSubsetOf,overlaps}`, `removeOverlap`,
-  `intersectRanges` (returns its first argument: finding F-C46-a), `sortRanges`, `validate`
+  `intersectRanges` (F-C46-a repaired by a `fix:` commit; pre-fix model kept as `intersectRangesPreFix`), `sortRanges`, `validate`
 * `rorLoop`/`removeOverlappingRanges` – the worklist of `RemoveOverlappingRanges` over an abstract
   tree interface `TreeOps` (the tree itself: `Gms/Model/RangeTree.lean`).
 
@@ -336,15 +336,30 @@ def removeOverlap : Nat → Range → Range → RO
 /-- Fuel that always suffices (see `Gms.C46.removeOverlap_fuel`). -/
 def removeOverlapFuel (a : Range) : Nat := a.length + 1
 
-/-- Go: `IntersectRanges` — as written: `newRange` is computed and dropped, the first non-nil
-range is returned (F-C46-a). -/
+/-- Go: `IntersectRanges` before the repair (commit "fix: IntersectRanges …" in /repo): `newRange`
+was computed and dropped, the first non-nil range was returned (F-C46-a). Kept only so that the
+repaired defect stays documented by a machine-checked witness (`Gms.C46.fixed_intersectRanges_result_discarded`). -/
+def intersectRangesLoopPreFix (rang : Range) : List Range → Range
+  | [] => rang
+  | rc :: rest =>
+    if rc.length = 0 then intersectRangesLoopPreFix rang rest
+    else
+      let newRange := rang.intersect rc
+      if newRange.length = 0 then [] else intersectRangesLoopPreFix rang rest
+
+def intersectRangesPreFix (ranges : List Range) : Range :=
+  match ranges.dropWhile (fun rc => rc.length = 0) with
+  | [] => []
+  | rang :: rest => intersectRangesLoopPreFix rang rest
+
+/-- Go: `IntersectRanges` — as written now: the second loop assigns `rang = newRange`. -/
 def intersectRangesLoop (rang : Range) : List Range → Range
   | [] => rang
   | rc :: rest =>
     if rc.length = 0 then intersectRangesLoop rang rest
     else
       let newRange := rang.intersect rc
-      if newRange.length = 0 then [] else intersectRangesLoop rang rest
+      if newRange.length = 0 then [] else intersectRangesLoop newRange rest
 
 def intersectRanges (ranges : List Range) : Range :=
   match ranges.dropWhile (fun rc => rc.length = 0) with
